@@ -696,6 +696,28 @@ fn tryops_mode(workdir: &str) {
     let mut ul = UnixListener::bind(&up).unwrap();
     let nb = |fd: i32| unsafe { libc::fcntl(fd, libc::F_GETFL) & libc::O_NONBLOCK != 0 };
     let report = |name: &str, res: &str, nonblock: bool| println!("{}", json!({"ev": "try", "name": name, "res": res, "nonblock": nonblock}));
+    // a try_* call that does not come back is reported as such (its system-call log shows where it waits)
+    static STEP: AtomicU64 = AtomicU64::new(0);
+    std::thread::spawn(|| {
+        let names = ["try_accept_unix_none", "try_connect_unix", "try_accept_unix_pending", "try_accept_tcp_none", "try_connect_tcp",
+                     "try_connect_tcp_progress", "try_accept_tcp_pending"];
+        let mut last = (u64::MAX, Instant::now());
+        loop {
+            std::thread::sleep(Duration::from_millis(100));
+            let cur = STEP.load(Ordering::SeqCst);
+            if cur != last.0 {
+                last = (cur, Instant::now());
+            } else if cur % 2 == 1 && last.1.elapsed() > Duration::from_secs(3) {
+                println!("{}", json!({"ev": "try", "name": names[(cur / 2) as usize], "res": "hang", "nonblock": true}));
+                unsafe { libc::_exit(0) };
+            }
+        }
+    });
+    let mark = |s: &str| {
+        // odd STEP = inside a try call
+        STEP.fetch_add(1, Ordering::SeqCst);
+        mark(s);
+    };
     // unix try_accept, nothing pending
     let n = nb(x_fd_u(&ul));
     mark("begin:try_accept_unix_none");
@@ -731,6 +753,8 @@ fn tryops_mode(workdir: &str) {
         mark("end:try_connect_tcp_progress");
         report("try_connect_tcp_progress", match &c2 { Ok(TcpTryConnect::Connected(_)) => "ok", Ok(TcpTryConnect::InProgress(_)) => "none", Err(_) => "err" }, true);
         std::mem::forget(c2);
+    } else {
+        STEP.fetch_add(2, Ordering::SeqCst);
     }
     mark("begin:try_accept_tcp_pending");
     let r = tl.try_accept();
